@@ -528,6 +528,21 @@ func ruleC01List(p *Prog, r *Result) {
 				return true, ""
 			}
 		}
+		// or a counter of dropped entries that only grows on a match, tested against zero
+		for _, g := range pa.Guards {
+			if g.A == nil || g.A.Op != "carried" || !pr.counterGrowsOnlyOnMatch(g.A) {
+				continue
+			}
+			positive := (g.Kind == "eq" && g.B != nil && g.B.IsConst("0") && g.Neg) ||
+				(g.Kind == "cmp" && g.B != nil && g.B.IsConst("0") && ((g.Const == ">" && !g.Neg) || (g.Const == "<=" && g.Neg))) ||
+				(g.Kind == "cmp" && g.B != nil && g.B.IsConst("1") && ((g.Const == ">=" && !g.Neg) || (g.Const == "<" && g.Neg)))
+			if positive {
+				return true, ""
+			}
+			if g.Kind == "eq" && g.B != nil && g.B.IsConst("0") && !g.Neg {
+				return false, "continues although nothing was deleted"
+			}
+		}
 		return false, "no guard on a 'something was deleted' flag before continuing"
 	})
 	// --- $match entries
@@ -685,6 +700,37 @@ func (pr *psRule) flagSetOnlyOnMatch(flag *T) bool {
 		}
 	}
 	return true
+}
+
+// counterGrowsOnlyOnMatch: a loop-carried integer that starts at 0 and is incremented only on paths where the
+// match test succeeded.
+func (pr *psRule) counterGrowsOnlyOnMatch(c *T) bool {
+	info, ok := pr.carried[c.N]
+	if !ok {
+		return false
+	}
+	init := info.Init
+	for init != nil && init.Op == "carried" {
+		init = pr.carried[init.N].Init
+	}
+	if init == nil || !init.IsConst("0") {
+		return false
+	}
+	grows := false
+	for _, pa := range pr.paths {
+		v, ok := pa.Carried[c.N]
+		if !ok || (v.Op == "carried" && v.N == c.N) {
+			continue
+		}
+		if !(v.Op == "binop" && v.Name == "+" && len(v.Args) == 2 && v.Args[0].Op == "carried" && v.Args[0].N == c.N && v.Args[1].IsConst("1")) {
+			return false
+		}
+		if guardPol(pa, "truth", mCall("bkl.match"), nil) != 1 {
+			return false
+		}
+		grows = true
+	}
+	return grows
 }
 
 // ---- match ------------------------------------------------------------------------------------
